@@ -6,7 +6,7 @@ B=${1:-600}; shift
 CH=${*:-C01 C02 C03 C04 C05 C06 C07 C08 C09 C10 C11 C12 C13 C15 C16 C17 C18 C19}
 ./check --build || exit 2
 for c in $CH; do
-  VERIF_BUDGET_S=$B ./check "$c" --tier thorough 2>/dev/null | grep -E "VIOLATION|class:|HARNESS|KNOWN|thorough:" | cut -c1-400 | sed "s/^/$c: /"
+  VERIF_BUDGET_S=$B ./check "$c" --tier thorough 2>/dev/null | grep -E "VIOLATION|class:|HARNESS|KNOWN|thorough:" | cut -c1-1500 | sed "s/^/$c: /"
   echo "$c rc=${PIPESTATUS[0]}"
 done
 echo THOROUGH-DONE
